@@ -33,6 +33,9 @@ for pid in ids:
         mem = any("memcheck" in c.get(t, {}).get("flavours", []) for t in ("quick", "thorough"))
         tech = c["technique"] + ("; plus a reduced workload under valgrind memcheck (uninitialised-value use, invalid accesses)" if mem else "")
         note = c["level_note"] + ("; valgrind 3.19 memcheck (its reports and aborts only: oracle verdicts are not taken from that run because valgrind emulates long double with 64 bits)" if mem else "")
+        if not c.get("no_release_flavour"):
+            tech += "; the first quarter of the workload repeated in a -O2 -DNDEBUG sanitizer build (the configuration the repository's tests and users build)"
+        tech += "; every case entered with a stale errno and sticky FP exception flags" + ("" if c.get("no_directed_rounding") else ", one case in 16 run under a directed caller rounding mode (tolerances x8)") + ", process-state monitor (rounding mode, MXCSR control, global locale) after every case"
         m["checks"].append({
             "property_id": pid,
             "quick_cmd": "./vcheck %s quick" % pid,
